@@ -1,0 +1,38 @@
+//go:build verif
+
+package cluster
+
+import "time"
+
+// VerifYield, when set by a verification harness, is called right before each
+// lock, map, channel and file system step of the shard manager so that the
+// harness can park the calling goroutine and force a schedule. Only compiled
+// with the verif tag.
+var VerifYield func(point string)
+
+func verifYield(point string) {
+	if VerifYield != nil {
+		VerifYield(point)
+	}
+}
+
+// VerifTimer, when set, receives the idle timer of each cleanup goroutine so
+// that the harness can make it fire at a chosen moment (timer.Reset(0)).
+var VerifTimer func(shardDir string, timer *time.Timer)
+
+func verifTimer(shardDir string, timer *time.Timer) {
+	if VerifTimer != nil {
+		VerifTimer(shardDir, timer)
+	}
+}
+
+// VerifShardState reports, without taking any lock, whether shardDir has an
+// entry in the shard store and whether that entry's shard reference is nil.
+// The harness calls it only while every shard manager goroutine is parked.
+func (sm *ShardManager) VerifShardState(shardDir string) (inStore bool, shardNil bool) {
+	ls, ok := sm.shardStore[shardDir]
+	if !ok {
+		return false, false
+	}
+	return true, ls.shard == nil
+}
